@@ -394,7 +394,11 @@ class Run:
         if q is not None:
             pats = [t_ for t_ in getattr(self, "_q_terms", []) if _mentions(b, t_)][:1]
             el = getattr(self, "_q_elem", None)
-            if el is not None and _mentions(b, el):
+            if isinstance(el, list):
+                # the pair of compared elements triggers every fact about the pair (also those that mention it
+                # only through intermediate results)
+                pats.append(z3.MultiPattern(*el))
+            elif el is not None and _mentions(b, el):
                 pats.append(el)  # alternative trigger: the iterated element itself
             b = z3.ForAll(q[0] if isinstance(q[0], list) else [q[0]], z3.Implies(q[1], b), patterns=pats)
             self._q_pending.append(b)
@@ -740,9 +744,10 @@ class Run:
             "len", "min", "max", "abs", "int", "round", "isinstance", "type", "str", "float", "sum", "any", "all",
             "sorted", "list", "set", "dict", "tuple", "range", "enumerate", "zip", "hasattr", "id", "hash", "bool",
             "copy", "deepcopy", "filter", "map", "next", "iter", "print", "repr", "defaultdict", "reversed",
+            "attrgetter", "partial",
         ):
             imp = module_imports(modname).get(name)
-            if imp is None or imp[1] in ("copy", "collections"):
+            if imp is None or imp[1] in ("copy", "collections", "operator", "functools"):
                 return Builtin(name)
         gv = module_global(modname, name)
         if gv is not None:
@@ -1358,6 +1363,8 @@ class Run:
     def call_module_fn(self, name, args, kwargs):
         if name in CONTRACTS:
             return self.call_function(name, args, kwargs)
+        if name in ("time.time", "time.perf_counter"):
+            return SV(T.REAL, H.fresh("wallclock", z3.RealSort()))  # measured wall-clock: an arbitrary real
         raise Reject("call of external %s (no contract)" % name)
 
     def call_builtin(self, name, arg_nodes, kw_nodes, node):
@@ -1482,6 +1489,8 @@ class Run:
             (v,) = args
             if isinstance(v, PyTuple):
                 return PyTuple(v.items, True)
+            if isinstance(v, SV) and isinstance(v.ty, T.List):
+                return self.copy_list(v)
             raise Reject("list(iterable)")
         if name == "tuple":
             (v,) = args
@@ -1494,6 +1503,30 @@ class Run:
             if len(args) == 2:
                 return RangeVal(self.coerce(args[0], T.INT).z, self.coerce(args[1], T.INT).z)
             raise Reject("range with step")
+        if name == "attrgetter":
+            (a0,) = args
+            nm = T.str_of_code(z3.simplify(a0.z).as_long()) if isinstance(a0, SV) and a0.ty == T.STR and z3.is_int_value(z3.simplify(a0.z)) else None
+            if nm is None or not nm.isidentifier():
+                raise Reject("attrgetter with a non-literal name")
+            return LambdaVal(ast.parse("lambda _ag_x: _ag_x.%s" % nm, mode="eval").body, dict(self.frames[-1].env), self)
+        if name == "partial":
+            f0 = args[0]
+            if isinstance(f0, BoundMethod) and len(args) == 2 and not kwargs:
+                fr_ = self.frames[-1]
+                hidden_r, hidden_a = "_pt_recv_%d" % id(f0), "_pt_arg_%d" % id(f0)
+                fr_.env[hidden_r] = f0.recv
+                fr_.env[hidden_a] = args[1]
+                return LambdaVal(ast.parse("lambda _pt_x: %s.%s(%s, _pt_x)" % (hidden_r, f0.name, hidden_a), mode="eval").body, dict(fr_.env), self)
+            raise Reject("partial(...) form")
+        if name == "sorted":
+            return self.sorted_list(args[0], kwargs.get("key"), kwargs.get("reverse"))
+        if name == "list" and len(args) == 1 and isinstance(args[0], SV) and isinstance(args[0].ty, T.List):
+            return self.copy_list(args[0])
+        if name == "deepcopy":
+            (v,) = args
+            if isinstance(v, SV) and isinstance(v.ty, T.Ref) and v.ty.cls and resolve_method(v.ty.cls, "__deepcopy__"):
+                return self.call_function(resolve_method(v.ty.cls, "__deepcopy__"), [v, OpaqueObj("memo")], {})
+            raise Reject("deepcopy of %r" % (v,))
         if name == "enumerate":
             start = kwargs.get("start", args[1] if len(args) > 1 else mk_int(0))
             return EnumerateVal(args[0], self.coerce(start, T.INT).z)
@@ -1512,6 +1545,87 @@ class Run:
         if name == "print":
             return NONE_SV
         raise Reject("builtin %s" % name)
+
+    def copy_list(self, v):
+        t = v.ty
+        self.touch(v)
+        out = self.new_container(t)
+        name, a = self.heap.carr(t, "len")
+        self.heap.set(name, z3.Store(a, out.z, self.heap.c_len(t, v.z)))
+        self.heap._upd(t, "elem", out.z, self.heap.l_elems(t, v.z))
+        return out
+
+    def sorted_list(self, v, key, reverse):
+        """sorted(xs, key=f): library contract -- a fresh list that is a permutation of xs and is ordered by the
+        key under python's `<` (stability is not modelled). The key function is evaluated symbolically on two
+        arbitrary elements; the ordering fact is stated with that very term."""
+        if reverse is not None:
+            raise Reject("sorted(reverse=...)")
+        if not (isinstance(v, SV) and isinstance(v.ty, T.List)):
+            raise Reject("sorted over %r" % (v,))
+        if not isinstance(key, LambdaVal) or len(key.node.args.args) != 1:
+            raise Reject("sorted without a one-argument lambda key")
+        t = v.ty
+        self.touch(v)
+        n = self.heap.c_len(t, v.z)
+        out = self.new_container(t)
+        name, a = self.heap.carr(t, "len")
+        self.heap.set(name, z3.Store(a, out.z, n))
+        es = T.sort(t.elem)
+        elems = H.fresh("sorted_elems", z3.ArraySort(H.I, es))
+        self.heap._upd(t, "elem", out.z, elems)
+        src = self.heap.l_elems(t, v.z)
+        perm = H.fresh("sorted_perm", z3.ArraySort(H.I, H.I))
+        inv = H.fresh("sorted_inv", z3.ArraySort(H.I, H.I))
+        i = z3.Int(H.fresh_name("so_i"))
+        j = z3.Int(H.fresh_name("so_j"))
+        e = z3.Const(H.fresh_name("so_e"), es)
+        M = H.mem_fn(es)
+        rng_i = z3.And(0 <= i, i < n)
+        self.assume(z3.ForAll([i], z3.Implies(rng_i, z3.And(0 <= z3.Select(perm, i), z3.Select(perm, i) < n, z3.Select(inv, z3.Select(perm, i)) == i, z3.Select(elems, i) == z3.Select(src, z3.Select(perm, i)))), patterns=[z3.Select(elems, i)]))
+        self.assume(z3.ForAll([i], z3.Implies(rng_i, z3.And(0 <= z3.Select(inv, i), z3.Select(inv, i) < n, z3.Select(perm, z3.Select(inv, i)) == i)), patterns=[z3.Select(inv, i)]))
+        self.assume(z3.ForAll([e], M(elems, n, e) == M(src, n, e), patterns=[M(elems, n, e)]))
+        # ordering: for positions i < j NOT key(out[j]) < key(out[i])
+        pname = key.node.args.args[0].arg
+        fr = self.frames[-1]
+        saved = dict(fr.env)
+        rng = z3.And(0 <= i, i < j, j < n)
+        if getattr(self, "qctx", None) is not None:
+            raise Reject("sorted inside a comprehension")
+        self.qctx = ([i, j], rng)
+        self._q_pending = []
+        self._q_terms = []
+        self.solver.push()
+        self.solver_qf.push()
+        self.solver.add(rng)
+        self.solver_qf.add(rng)
+        old = getattr(self, "no_fork", False)
+        self.no_fork = True
+        self._q_elem = [z3.Select(elems, i), z3.Select(elems, j)]
+        try:
+            xi = SV(t.elem, z3.Select(elems, i))
+            xj = SV(t.elem, z3.Select(elems, j))
+            for x_ in (xi, xj):
+                for f in self.type_facts(x_):
+                    self.assume(f)
+            fr.env[pname] = xi
+            ki = self.ev(key.node.body)
+            fr.env[pname] = xj
+            kj = self.ev(key.node.body)
+            lt = self.order("Lt", kj, ki)
+            self.assume(z3.Not(lt))
+        finally:
+            self._q_elem = None
+            self.no_fork = old
+            self.qctx = None
+            self.solver.pop()
+            self.solver_qf.pop()
+            for b_ in self._q_pending:
+                self.solver.add(b_)
+            self._q_pending = []
+            fr.env.clear()
+            fr.env.update(saved)
+        return out
 
     def min_max_over(self, name, v):
         """min(xs) / max(xs) over a list: ValueError when empty, otherwise an element that no other element
@@ -2287,6 +2401,10 @@ class Run:
             self.assume(z3.ForAll([i], z3.Implies(z3.And(0 <= i, i < n), z3.And(z3.Select(dom, z3.Select(perm, i)), z3.Select(pidx, z3.Select(perm, i)) == i)), patterns=[z3.Select(perm, i)]))
             self.assume(z3.ForAll([k], z3.Implies(z3.Select(dom, k), z3.And(0 <= z3.Select(pidx, k), z3.Select(pidx, k) < n, z3.Select(perm, z3.Select(pidx, k)) == k)), patterns=[z3.Select(dom, k)]))
             return n, (lambda j: SV(t.elem, z3.Select(perm, j))), it
+        if isinstance(it, SV) and isinstance(it.ty, T.Ref) and it.ty.cls in CLASSES and getattr(CLASSES[it.ty.cls], "iter_field", None):
+            # `for x in obj` where obj.__iter__ yields the elements of one list field (declared in the shape)
+            fty, z = self.heap.rd(it.z, it.ty.cls, CLASSES[it.ty.cls].iter_field)
+            return self.iter_desc(self.assume_typed(SV(fty, z)))
         raise Reject("iteration over %r" % (it,))
 
     def loop_spec(self, node):
@@ -2360,6 +2478,8 @@ class Run:
 
     def st_For(self, s):
         it = self.ev(s.iter)
+        if _only_logging(s.body) and not s.orelse:
+            return  # nothing but dropped log statements: the loop has no effect
         if isinstance(it, PyTuple):
             # literal: unroll
             for x in it.items:
